@@ -79,6 +79,8 @@ def run(c, index, tier):
     local = {"linreg": PLinReg, "tag": P.TagRegressor, "dummy": PDummy, "tree": lambda: PTree(max_depth=2, random_state=0)}[local_name]()
     n_jobs = ch.choice("w", [None, 2, 3, None], "n_jobs")
     mode = "adversarial" if ch.draw("r", 4, "entropy-mode") != 3 else "pinned"
+    mode = getattr(c, "force_entropy_mode", None) or mode  # fidelity self-test only
+    n_jobs = getattr(c, "force_n_jobs", None) or n_jobs
     m = ch.integer("w", 1, 6, "m")
     Xq = numpy.vstack([X[: min(m, n)], rs.randn(m, d) * 2])
     g = ch.subseed("r", "global-seed")
